@@ -25,6 +25,7 @@ type options struct {
 }
 
 type verdict struct {
+	Rt3Skipped bool
 	Rt2Skipped bool
 	GaveUp     bool
 	App        aApp
@@ -82,12 +83,22 @@ func judgeApp(a aApp, opt options) (v verdict) {
 		j3.fail("export-fails:"+exportClass(bad), "export -f openapi3 fails: %s%s", bad.Err, bad.Panic)
 	} else {
 		if doc := decodeBoth(j3, oj.Bytes, oy.Bytes); doc != nil {
-			wellFormed3(j3, oj.Bytes)
+			wellFormed3(j3, oj.Bytes, a)
 			ownRules3(j3, doc, a)
 			j3.checkTypes(a, asMap(asMap(doc["components"])["schemas"]), "#/components/schemas/")
 			j3.checkEndpoints(a, doc, "#/components/schemas/")
 		}
-		if opt.arrai {
+		rpcInvalid := false // listed (oas3:not-well-formed:rpc-endpoint-as-path): the name of an RPC-style endpoint is a key of `paths`
+		var d3 map[string]interface{}
+		if json.Unmarshal(oj.Bytes, &d3) == nil {
+			for _, ep := range a.Endpoints {
+				if _, has := asMap(d3["paths"])[ep.Path]; ep.Plain && has {
+					rpcInvalid = true
+				}
+			}
+		}
+		v.Rt3Skipped = opt.arrai && rpcInvalid
+		if opt.arrai && !rpcInvalid { // a document the validator rejects (listed: RPC endpoint as path) is not read back
 			// importer.Factory("openapi3") is the arr.ai importer
 			r := runImport("openapi3", false, string(oy.Bytes))
 			v.Reimp3 = r.Text
@@ -150,7 +161,7 @@ func judgeApp(a aApp, opt options) (v verdict) {
 		j2.fail("export-fails:"+cls, "export -f swagger fails: %s%s", bad.Err, bad.Panic)
 	} else {
 		if doc := decodeBoth(j2, sj.Bytes, sy.Bytes); doc != nil {
-			wellFormed2(j2, sj.Bytes, doc)
+			wellFormed2(j2, sj.Bytes, doc, a)
 			j2.checkTypes(a, asMap(doc["definitions"]), "#/definitions/")
 			j2.checkEndpoints(a, doc, "#/definitions/")
 		}
@@ -330,6 +341,9 @@ func shrink(a aApp, key string, budget int) aApp {
 			for i := len(a.Endpoints[e].Rets) - 1; i >= 0; i-- {
 				c := cloneApp(a)
 				c.Endpoints[e].Rets = append(c.Endpoints[e].Rets[:i], c.Endpoints[e].Rets[i+1:]...)
+				if i < len(c.Endpoints[e].Wrap) {
+					c.Endpoints[e].Wrap = append(c.Endpoints[e].Wrap[:i], c.Endpoints[e].Wrap[i+1:]...)
+				}
 				if still(c) {
 					a, changed = c, true
 				}
@@ -367,9 +381,10 @@ func knownKeys() func(string) bool {
 // ---------------------------------------------------------------- main
 
 type replayT struct {
-	Kind string `json:"kind"`
-	App  aApp   `json:"app"`
-	Sysl string `json:"sysl"`
+	Kind string   `json:"kind"`
+	App  aApp     `json:"app"`
+	Sysl string   `json:"sysl"`
+	Cli  *cliCase `json:"cli,omitempty"`
 }
 
 const caseHeader = `From Coq Require Import String List NArith ZArith Bool.
@@ -398,7 +413,7 @@ func main() {
 				o3 := runExport3(app, "yaml")
 				fmt.Fprintf(realOut, "==== %s openapi3 err=%q panic=%q\n%s\n", n, o3.Err, o3.Panic, o3.Bytes)
 				jj := &judge{fmtName: "oas3"}
-				wellFormed3(jj, runExport3(app, "json").Bytes)
+				wellFormed3(jj, runExport3(app, "json").Bytes, aApp{})
 				fmt.Fprintf(realOut, "---- well-formed? %v\n", jj.out)
 				r := runImport("openapi3", false, string(o3.Bytes))
 				fmt.Fprintf(realOut, "---- re-import err=%q panic=%q\n%s\n%s\n", r.Err, r.Panic, r.Text, r.Stack)
@@ -419,6 +434,22 @@ func main() {
 		if err := common.LoadReplay(c.Replay, &rp); err != nil {
 			fmt.Fprintln(realOut, "cannot read replay:", err)
 			os.Exit(3)
+		}
+		if rp.Kind == "cli" && rp.Cli != nil {
+			c.Count("replay", true)
+			bin := os.Getenv("VERIF_SYSL_BIN")
+			docs, _, e := libraryDocs(rp.Cli.Module)
+			if bin == "" || e != "" {
+				fmt.Fprintln(realOut, "cannot replay a command-line case: no binary, or the module does not export:", e)
+				os.Exit(3)
+			}
+			r := runCli(bin, *rp.Cli)
+			fmt.Fprintf(realOut, "---- sysl export %v m.sysl\n---- status %d\n%s---- files %v\n", rp.Cli.Args, r.Status, r.Output, fileNames(r.Files))
+			judgeCli(*rp.Cli, r, docs, func(key, format string, a ...interface{}) {
+				fmt.Fprintln(realOut, "FAIL", key, fmt.Sprintf(format, a...))
+				c.Fail(key, fmt.Sprintf(format, a...), rp)
+			})
+			return
 		}
 		v := judgeApp(rp.App, options{arrai: true, coq: true})
 		c.Count("replay", true)
@@ -482,6 +513,39 @@ func main() {
 		jobs = append(jobs, job{g.appKinds(appNames[g.r.Intn(3)], style), options{arrai: i < nkArrai, coq: true}, "kinds", false})
 	}
 
+	// params stream (second pass; after the streams above, whose inputs stay what they were): path / query / header parameters of
+	// declared types
+	np, npArrai := 70, 1
+	if c.Thorough() {
+		np, npArrai = 600, 8
+	}
+	if c.Search {
+		np *= 3
+	}
+	for i := 0; i < np; i++ {
+		style := "sysl"
+		if i%3 == 2 {
+			style = "imported"
+		}
+		jobs = append(jobs, job{g.appParams(appNames[g.r.Intn(3)], style), options{arrai: i < npArrai, coq: true}, "params", false})
+	}
+
+	// stmts stream (second pass): return statements nested in blocks, colliding statuses, RPC-style endpoints, a description
+	ns, nsArrai := 70, 1
+	if c.Thorough() {
+		ns, nsArrai = 600, 8
+	}
+	if c.Search {
+		ns *= 3
+	}
+	for i := 0; i < ns; i++ {
+		style := "sysl"
+		if i%3 == 2 {
+			style = "imported"
+		}
+		jobs = append(jobs, job{g.appStmts(appNames[g.r.Intn(3)], style), options{arrai: i < nsArrai, coq: true}, "stmts", false})
+	}
+
 	results := make([]verdict, len(jobs))
 	var wg sync.WaitGroup
 	sem := make(chan struct{}, 8)
@@ -529,17 +593,34 @@ func main() {
 			c.Hist("method:" + ep.Method)
 			for _, p := range ep.Params {
 				c.Hist("param:" + p.In)
+				if p.T.Kind == "ref" && p.In != "body" {
+					c.Hist("param-of-declared-type:" + p.In)
+					if p.T.Bare {
+						c.Hist("param-of-declared-type:query-without-braces")
+					}
+				}
 			}
 			if len(ep.Params) >= 3 {
 				c.Hist("endpoint-with>=3-params")
 			}
 			c.HistN("returns", len(ep.Rets))
+			for _, w := range ep.Wrap {
+				if w != "" {
+					c.Hist("return-nested-in:" + w)
+				}
+			}
+			if ep.Plain {
+				c.Hist("rpc-endpoint")
+			}
 		}
 		if v.ParseErr != "" && jobs[i].hostile {
 			c.Hist("hostile:does-not-compile")
 		}
 		if v.GaveUp {
 			c.Hist("oas3:validator-gave-up-on-reference-cycle")
+		}
+		if v.Rt3Skipped {
+			c.Hist("oas3:roundtrip-not-judged-invalid-document-rpc-endpoint")
 		}
 		if v.Rt2Skipped {
 			c.Hist("swagger:roundtrip-not-judged-incomplete-document")
@@ -548,7 +629,7 @@ func main() {
 			c.Sample(map[string]interface{}{"sysl": render([]aApp{a})})
 		}
 		for _, f := range v.Findings {
-			rp := replayT{"app", a, render([]aApp{a})}
+			rp := replayT{Kind: "app", App: a, Sysl: render([]aApp{a})}
 			if !shrunk[f.Key] {
 				shrunk[f.Key] = true
 				budget := 40
@@ -556,7 +637,7 @@ func main() {
 					budget = 0 // listed findings keep the generated input; arr.ai re-imports are too slow to shrink with
 				}
 				sa := shrink(a, f.Key, budget)
-				rp = replayT{"app", sa, render([]aApp{sa})}
+				rp = replayT{Kind: "app", App: sa, Sysl: render([]aApp{sa})}
 				for _, sf := range judgeApp(sa, options{}).Findings {
 					if sf.Key == f.Key {
 						f.What = sf.What
@@ -567,7 +648,7 @@ func main() {
 		}
 		switch {
 		case v.Term != "":
-			cases.Add(v.Term, replayT{"app", a, ""})
+			cases.Add(v.Term, replayT{Kind: "app", App: a})
 			c.Hist("coq-case")
 		case v.Skipped != "":
 			c.Hist("coq-skipped:" + v.Skipped)
@@ -577,11 +658,12 @@ func main() {
 	swCases := c.NewCases("C12S", caseHeader, "c12s_case", swFooter, 60)
 	for i, v := range results {
 		if v.SwTerm != "" {
-			swCases.Add(v.SwTerm, replayT{"app", jobs[i].a, ""})
+			swCases.Add(v.SwTerm, replayT{Kind: "app", App: jobs[i].a})
 			c.Hist("coq-case-swagger-definitions")
 		}
 	}
 	swCases.Close()
+	cliStream(c, g)
 	var keys []string
 	for k := range shrunk {
 		keys = append(keys, k)
